@@ -407,6 +407,17 @@ fn main() {
         if rep.over_budget() {
             break;
         }
+        // once per shard: more distinct resources than the documented soft cap (10 000) exist while the next
+        // ~280 cases run; the cap only warns, entries on late resources are accounted like all others
+        if i == 12 {
+            VClock::set_ms(base - 25_000);
+            for k in 0..10_050u32 {
+                if let Ok(e) = EntryBuilder::new(format!("c04-flood-{}-{k}", opts.shard)).with_traffic_type(TrafficType::Outbound).build() {
+                    e.exit();
+                }
+            }
+            rep.count("resource_flood_nodes", 10_050);
+        }
         let case = gen_case(&mut rng, base, thorough);
         let span: u64 = case.ops.iter().map(|o| if let Op::Adv(ms) = o { *ms } else { 0 }).sum();
         base += span + 30_000;
